@@ -1518,7 +1518,7 @@ func goroutineRecover(c *Check) {
 			return true
 		})
 	}
-	c.floor("go statements in product code", 3, n)
+	c.floor("go statements in product code", 1, n)
 }
 
 // boundedReads: O-C09.4 (a).
